@@ -62,3 +62,43 @@ def c05_param_backslash_injection(case, observed, expected):
 def c20_pytz_custom_tz_copy(case, observed, expected):
     return (case.get("provider") == "pytz" and case.get("custom_tz") and case.get("how") in ("deepcopy", "pickle")
             and case.get("exc") == "UnknownTimeZoneError")
+
+
+# ---------------------------------------------------------------- C01 / C09
+def c01_text_unescape_line(case, observed, expected):
+    return case.get("kf") == "unescape" and isinstance(observed, dict) and str(observed.get("line", "")).startswith("DESCRIPTION:")
+
+
+def c01_categories_comma_line(case, observed, expected):
+    return case.get("kf") == "list-comma" and isinstance(observed, dict) and observed.get("line") == "CATEGORIES:A,B\\,C,D"
+
+
+def c01_pytz_fold(case, observed, expected):
+    return (case.get("provider") == "pytz" and isinstance(observed, dict)
+            and observed.get("line") == "DUE;TZID=America/New_York:20241103T013000" and "EST" in str(observed.get("got")))
+
+
+def c01_component_name_escaped_twice(case, observed, expected):
+    d = (case.get("diff") or {})
+    if d.get("what") != "name":
+        return False
+    a, b = d.get("a", ""), d.get("b", "")
+    esc = a.replace("\\", "\\\\").replace(";", "\\;").replace(",", "\\,")
+    return any(ch in a for ch in "\\;,") and b == esc
+
+
+def c01_unescape_instability(case, observed, expected):
+    """parse->serialise->parse changed a property only in a parameter value / TEXT value that contains a
+    backslash or a percent sign (the parts() pre-unescape of C07-K2 / C08-K1 applied once per trip)"""
+    d = (case.get("diff") or {})
+    if d.get("what") != "prop":
+        return False
+    a, b = d.get("a"), d.get("b")
+    if not (isinstance(a, list) and isinstance(b, list) and len(a) == 4 and len(b) == 4):
+        return False
+    if a[0] != b[0] or a[1] != b[1]:
+        return False
+    blob = repr(a[2]) + repr(a[3])
+    return ("\\" in blob or "%" in blob) and a[1] in ("vText", "vCalAddress", "vUri", "vCategory", "vInline", "vDDDTypes",
+                                                        "vDDDLists", "vRecur", "vInt", "vDuration", "vPeriod", "vGeo",
+                                                        "vUTCOffset", "vBoolean", "vFloat", "vBinary", "vTime", "vDatetime", "vDate")
